@@ -357,6 +357,7 @@ class Contract:
         self.assumed_ensures = None   # (ctx) -> clauses assumed at call sites but NOT proved of the body (listed as assumptions)
         self.post_hints = None    # (ctx) -> extra premises (instances of separately proved lemmas)
         self.defaults = {}
+        self.slice = None         # (first, last): verify only a contiguous run of top-level statements (see Engine._verify)
         Contract.registry[qualname] = self
 
 
@@ -511,6 +512,29 @@ class Engine:
 
     def _verify(self, qualname, con, variant, vtag):
         node, info, src = self.src.function(qualname.split('#')[0])     # 'q#tag': a second contract for the same function
+        if getattr(con, 'slice', None) is not None:
+            # statement slice: the contiguous top-level statements of the function body from the one whose first line contains
+            # slice[0] up to (and including) the one whose first line contains slice[1]; the free variables are the contract's
+            # parameters.  Everything before and after the slice is dropped (stated in the evidence file).
+            first, last = con.slice
+            heads = [ast.get_source_segment(src, st_).split('\n')[0] for st_ in node.body]
+            i0 = [i for i, h in enumerate(heads) if first in h]
+            i1 = [i for i, h in enumerate(heads) if last in h]
+            if len(i0) != 1 or len(i1) != 1 or i1[0] < i0[0]:
+                raise Unsupported('%s: statement slice %r .. %r not found exactly once among the top-level statements' % (qualname, first, last))
+            body = node.body[i0[0]:i1[0] + 1]
+            params = [p_ for p_ in con.params if not p_.startswith('$')]
+            fn2 = ast.FunctionDef(name=node.name, args=ast.arguments(posonlyargs=[], args=[ast.arg(arg=p_) for p_ in params], kwonlyargs=[],
+                                                                     kw_defaults=[], defaults=[]), body=body, decorator_list=[])
+            fn2.lineno, fn2.end_lineno, fn2.col_offset = body[0].lineno, body[-1].end_lineno, node.col_offset
+            info = dict(info)
+            info['qualname'] = info['qualname'] + ' [statements at lines %d-%d]' % (body[0].lineno, body[-1].end_lineno)
+            info['lines'] = [body[0].lineno, body[-1].end_lineno]
+            seg = '\n'.join(src.split('\n')[body[0].lineno - 1:body[-1].end_lineno])
+            info['sha256'] = hashlib.sha256(seg.encode('utf-8')).hexdigest()
+            self.assumed.add('%s: only the statements at lines %d-%d are verified (mechanically extracted slice); the rest of the function is not under this contract'
+                             % (qualname, body[0].lineno, body[-1].end_lineno))
+            node = fn2
         if info not in self.functions:
             self.functions.append(info)
         self.cur = FnCtx(self, con, node, qualname, src)
@@ -547,6 +571,7 @@ class Engine:
             st.assume(b)
             nreq += 1
         fc.requires_pc = list(st.pc)
+        self._param_frame(fc, node, con, args)
         outs = self.exec_block(node.body, st)
         exits = 0
         for kind, s, payload in outs:
@@ -563,6 +588,109 @@ class Engine:
                 raise Unsupported('%s: stray %s' % (qualname, kind))
         info['normal_exits'] = exits
         return info
+
+    MUTATORS = ('append', 'extend', 'insert', 'pop', 'remove', 'clear', 'update', 'sort', 'reverse', 'popitem', 'setdefault',
+                'add', 'discard', 'set', 'remove_option', 'subtract')
+
+    def _param_frame(self, fc, node, con, args):
+        """Frame of the parameters: a parameter holding a mutable value that the contract does not list under `mutates` must not be
+        updated in place (callers reason with the contract and assume their argument unchanged).  Decided on the AST of the body:
+        item/attribute/slice stores and deletes, augmented stores, mutator method calls and heapq operations whose root is the parameter,
+        and passing it to a callee whose contract mutates that argument.  A parameter that is also re-bound by a plain assignment is
+        not decided here (recorded as an assumption)."""
+        def root_of(t):
+            cur = t
+            steps = 0
+            while isinstance(cur, (ast.Subscript, ast.Attribute, ast.Starred)):
+                cur = cur.value
+                steps += 1
+            return (cur.id, steps) if isinstance(cur, ast.Name) else (None, 0)
+
+        cand = [n for n, v in args.items() if n != 'self' and not n.startswith('$') and n not in con.mutates
+                and (is_mutable_val(v) or isinstance(v, PObj))]
+        if not cand:
+            return
+        sites = {n: [] for n in cand}
+        rebound = set()
+
+        def store(t, line):
+            if isinstance(t, (ast.Tuple, ast.List)):
+                for e in t.elts:
+                    store(e, line)
+                return
+            r, steps = root_of(t)
+            if r in sites:
+                if steps == 0:
+                    rebound.add(r)
+                else:
+                    sites[r].append(line)
+
+        nodes = []
+        stack = list(node.body)
+        while stack:
+            n = stack.pop()
+            if isinstance(n, (ast.FunctionDef, ast.AsyncFunctionDef, ast.Lambda, ast.ClassDef)):
+                continue
+            nodes.append(n)
+            stack.extend(ast.iter_child_nodes(n))
+        for n in nodes:
+            if isinstance(n, ast.Assign):
+                for t in n.targets:
+                    store(t, n.lineno)
+            elif isinstance(n, ast.AugAssign):
+                r, steps = root_of(n.target)
+                if r in sites:
+                    if steps == 0 and not (is_mutable_val(args[r]) or isinstance(args[r], PObj)):
+                        rebound.add(r)
+                    else:
+                        sites[r].append(n.lineno)       # x += [...] on a list updates it in place
+            elif isinstance(n, ast.AnnAssign) and n.value is not None:
+                store(n.target, n.lineno)
+            elif isinstance(n, (ast.For, ast.AsyncFor)):
+                store(n.target, n.lineno)
+            elif isinstance(n, ast.withitem) and n.optional_vars is not None:
+                store(n.optional_vars, n.lineno)
+            elif isinstance(n, ast.NamedExpr):
+                store(n.target, n.lineno)
+            elif isinstance(n, ast.Delete):
+                for t in n.targets:
+                    r, steps = root_of(t)
+                    if r in sites and steps > 0:
+                        sites[r].append(n.lineno)
+            elif isinstance(n, ast.Call):
+                f = n.func
+                if isinstance(f, ast.Attribute) and f.attr in self.MUTATORS:
+                    r, _ = root_of(f.value)
+                    if r in sites:
+                        sites[r].append(n.lineno)
+                if isinstance(f, ast.Attribute) and ast.unparse(f) in ('heapq.heappush', 'heapq.heappop', 'heapq.heapify', 'random.shuffle') and n.args:
+                    r, _ = root_of(n.args[0])
+                    if r in sites:
+                        sites[r].append(n.lineno)
+                q = fc.resolve_call_name(n)
+                c2 = Contract.registry.get(q) if q else None
+                if c2 is not None and c2.mutates:
+                    pn = [p for p in c2.params if p != 'self' and not p.startswith('$')]
+                    for pi, a in enumerate(n.args):
+                        if pi < len(pn) and pn[pi] in c2.mutates:
+                            r, _ = root_of(a)
+                            if r in sites:
+                                sites[r].append(n.lineno)
+                    for k in n.keywords:
+                        if k.arg in c2.mutates:
+                            r, _ = root_of(k.value)
+                            if r in sites:
+                                sites[r].append(n.lineno)
+        for nme in cand:
+            if nme in rebound:
+                if sites[nme]:
+                    self.assumed.add('%s: parameter %s is re-bound and later updated; that the update does not reach the caller\'s object is not checked'
+                                     % (fc.qualname, nme))
+                continue
+            ok = not sites[nme]
+            self.emit(VC('%s.frame.param.%s' % (fc.short, nme), [], z3.BoolVal(ok), 'frame',
+                         where='' if ok else 'parameter %s is updated in place at line(s) %s but the contract does not list it under mutates'
+                         % (nme, sorted(set(sites[nme]))), fn=fc.qualname))
 
     def _default_of(self, node, name):
         args = node.args.args
@@ -1244,6 +1372,7 @@ class Engine:
                 outs.append(('next', ex, None))
             body_st = head
             body_st.assume(gi < hi)
+            body_st.env['$i%d' % lid] = ZV(TInt, gi)      # ghost: the index of this loop, visible to the invariants of nested loops
             if file_var is not None:
                 # the line is consumed before the body runs (a seek() in the body then wins)
                 body_st.env[file_var] = body_st.env[file_var].with_field('pos', ZV(TInt, gi + 1))
